@@ -2378,3 +2378,290 @@ class C17(Check):
                 self.violation("optimal value under SplineMethod %r differs from MultipleShooting %r on an integrator chain of length %d (N=%d, T=%s)" % (vals[0], vals[1], L, N, T),
                                {"L": L, "N": N, "T": T, "x0": x0, "w": w}, {"kind": "equivalence"})
                 return
+
+
+# ---------------------------------------------------------------------------------------------
+# C03: convergence (numeric support for the theorems of Props/C03.lean; every measurement here is a TEST, not a proof)
+def gen_smooth_ode(rng, nx=None, control=True, dae=False):
+    """smooth, mildly nonlinear, explicitly time-dependent ODE with a parameter, a control and a state-dependent integrand"""
+    d = B.default_desc()
+    nx = nx or rng.choice([1, 2, 2, 3])
+    d['states'] = [1] * nx
+    d['controls'] = [1] if control else []
+    d['params'][''] = [1]
+    xs = [('x', i) for i in range(nx)]
+    q = lambda lo=-6, hi=6: E.C(Fr(rng.choice([v for v in range(lo, hi + 1) if v != 0]), 4))
+    ode = []
+    for i in range(nx):
+        e = ('*', q(-6, -1), xs[i])                                       # stable linear part
+        if nx > 1:
+            e = ('+', e, ('*', q(), xs[(i + 1) % nx]))
+        e = ('+', e, ('/', ('*', q(), ('*', xs[i], xs[(i + 1) % nx])), ('+', E.C(1), ('*', xs[i], xs[i]))))   # bounded nonlinearity
+        e = ('+', e, ('*', q(), ('*', ('t',), ('p', 0))))                  # explicit time x parameter
+        e = ('+', e, ('*', q(), ('*', ('t',), ('t',))))
+        if control and i == nx - 1:
+            e = ('+', e, ('*', q(), ('u', 0)))
+        ode.append(e)
+    d['ode'] = ode
+    if dae:
+        d['algs'] = [1]
+        z = ('z', 0)
+        d['alg'] = [('-', ('*', E.C(2), z), ('+', xs[0], ('*', E.C(Fr(1, 2)), ('t',))))]   # 2 z = x0 + t/2
+        d['ode'][0] = ('+', d['ode'][0], ('*', q(), z))
+    integrand = ('+', ('*', xs[0], xs[-1]), ('*', E.C(Fr(1, 2)), ('*', ('t',), xs[0])))
+    d['phs'] = [('integral', integrand)]
+    d['obj'] = ('ph', 0)
+    d['integrand'] = integrand
+    return d
+
+
+def reference_flow(desc, x0, u, p, t0, T):
+    """high-accuracy reference of the declared continuous-time model, independent of rockit: scipy DOP853 on the expression AST
+    (the algebraic variable of the generated index-1 DAE is eliminated in closed form: 2 z = x0 + t/2)"""
+    import numpy as np
+    from scipy.integrate import solve_ivp
+    nx = sum(desc['states'])
+
+    def rhs(t, y):
+        env = {('x', i): y[i] for i in range(nx)}
+        env[('t',)] = t
+        env[('p', 0)] = p
+        if desc['controls']:
+            env[('u', 0)] = u
+        if desc['algs']:
+            env[('z', 0)] = (y[0] + 0.5 * t) / 2.0
+        return [float(E.evaluate(e, env)) for e in desc['ode']] + [float(E.evaluate(desc['integrand'], env))]
+    sol = solve_ivp(rhs, (t0, t0 + T), list(x0) + [0.0], method='DOP853', rtol=1e-13, atol=1e-14)
+    y = sol.y[:, -1]
+    return y[:nx], y[nx]
+
+
+EXPECTED_ORDER = {'rk': 4, 'expl_euler': 1}
+
+
+@register
+class C03(Check):
+    pid = "C03"
+    slices = ["shooting-order", "collocation-order", "builtin-integrators", "sys_simulator"]
+
+    def explanation(self):
+        return ("PARTIAL. theorems: intg_rk is the Runge-Kutta method with the classical tableau, which satisfies all eight order conditions up to "
+                "order 4 and fails the first of order 5; RK4 is exact for x' = cubic(t) (state and quadrature output) and its error for t^4 is "
+                "exactly h^5/120; Euler's for affine is exactly -a1 h^2/2; stability functions and M-step propagation on x' = lambda x; discrete "
+                "Gronwall and the global-error-from-local-error theorem (order p from local order p+1 and a Lipschitz one-step map); COMPLETE "
+                "convergence proofs over the reals for the linear test equation: RK4 error <= |x0| e^{|lambda T|} |lambda|^5 |T|^5 / 100 / M^4, Euler "
+                "<= |x0| e^{|lambda T|} lambda^2 T^2 / M; the time rescaling of intg_builtin / sys_simulator (HasDerivAt, vector valued). NOT proved: "
+                "order conditions => local error for arbitrary smooth vector fields, collocation super-convergence, CasADi's integrators. numeric "
+                "tests (labelled as such): observed order of the state transition AND of ocp.integral for generated smooth time-dependent ODEs "
+                "with control and parameter, M in {1,2,4,8}, against a scipy DOP853 reference of the expression AST: rk >= 4, expl_euler >= 1, "
+                "collocation radau 2d-1 / legendre 2d (d = 1..3, index-1 DAE included), errors decreasing; cvodes / collocation / idas within "
+                "tolerance with t0 != 0 and explicit time dependence; sys_simulator and discrete_system give the same flow")
+
+    def correspondence(self):
+        self.shooting_slice()
+        self.collocation_slice()
+        self.builtin_slice()
+        self.simulator_slice()
+
+    def point(self, desc):
+        rng = self.rng
+        nx = sum(desc['states'])
+        x0 = [rng.randint(-4, 4) / 4.0 for _ in range(nx)]
+        u = rng.randint(-4, 4) / 4.0
+        p = rng.randint(1, 6) / 4.0
+        t0 = rng.randint(-2, 4) / 4.0
+        T = rng.choice([0.5, 0.75, 1.0])
+        return x0, u, p, t0, T
+
+    def order_verdict(self, errs, p, what, payload, feats, floor=1e-11):
+        """errs: [e_1, e_2, e_4, e_8]. The error must shrink as M grows, at (at least) the classical order in the asymptotic regime."""
+        errs = [max(e, 1e-300) for e in errs]
+        pairs = [(errs[i], errs[i + 1]) for i in range(len(errs) - 1)]
+        usable = [(a, b_) for a, b_ in pairs if b_ > floor]
+        if errs[-1] > 0.9 * max(errs[:-1]) and max(errs) > 1e-9:
+            return "%s: the error does not vanish as M grows: %s" % (what, ["%.3e" % e for e in errs])
+        if not usable:
+            return None
+        a, b_ = usable[-1]
+        # two-point estimates are noisy when error terms of consecutive orders cancel at one M: take the better of the
+        # last pair and the average slope over the whole usable range (a scheme of lower order fails both)
+        first = pairs.index(usable[0])
+        last = pairs.index(usable[-1]) + 1
+        rate = max(math.log(a / b_, 2), math.log(errs[first] / errs[last], 2) / (last - first))
+        self.count("observed-order:%s:%d" % (feats.get("scheme", "?"), int(round(rate))))
+        if rate < p - 0.75:
+            return "%s: observed order %.2f (errors %s for M=1,2,4,8), classical order %d" % (what, rate, ["%.3e" % e for e in errs], p)
+        return None
+
+    def shooting_slice(self):
+        import numpy as np
+        rockit = B.import_rockit()
+        name = "shooting-order"
+        n = 6 if self.tier == 'quick' else 60
+        for it in range(n):
+            intg = ['rk', 'expl_euler'][it % 2]
+            desc = gen_smooth_ode(self.rng)
+            x0, u, p, t0, T = self.point(desc)
+            xr, qr = reference_flow(desc, x0, u, p, t0, T)
+            ex, eq = [], []
+            for M in (1, 2, 4, 8):
+                b = B.build(copy.deepcopy(desc), transcribe=False)
+                with B.quiet():
+                    cls = rockit.MultipleShooting if it % 4 < 2 else rockit.SingleShooting
+                    b.ocp.method(cls(N=1, M=M, intg=intg))
+                    F = b.ocp.discrete_system()
+                    out = F(x0, [u], T, t0, [p], [])
+                xf = np.array(out[0]).flatten()
+                qf = float(np.array(out[3]).flatten()[0])
+                ex.append(float(np.max(np.abs(xf - xr))))
+                eq.append(abs(qf - qr))
+            self.evaluations += 1
+            self.record_case(desc, True, {"intg": intg, "T": T, "state_errors": ex, "integral_errors": eq})
+            payload = {"desc": desc, "x0": x0, "u": u, "p": p, "t0": t0, "T": T}
+            for errs, what in ((ex, "state transition"), (eq, "ocp.integral")):
+                feats = {"kind": "order", "scheme": intg, "quantity": what}
+                msg = self.order_verdict(errs, EXPECTED_ORDER[intg], "%s under intg='%s'" % (what, intg), payload, feats)
+                if msg:
+                    # an order estimate can be off when the horizon is not yet in the asymptotic regime: confirm on half the
+                    # horizon with twice as many steps before reporting
+                    T2 = T / 2.0
+                    xr2, qr2 = reference_flow(desc, x0, u, p, t0, T2)
+                    e2 = []
+                    for M in (2, 4, 8, 16):
+                        b = B.build(copy.deepcopy(desc), transcribe=False)
+                        with B.quiet():
+                            b.ocp.method(rockit.MultipleShooting(N=1, M=M, intg=intg))
+                            out = b.ocp.discrete_system()(x0, [u], T2, t0, [p], [])
+                        e2.append(float(np.max(np.abs(np.array(out[0]).flatten() - xr2))) if what == "state transition" else abs(float(np.array(out[3]).flatten()[0]) - qr2))
+                    msg2 = self.order_verdict(e2, EXPECTED_ORDER[intg], "%s under intg='%s' (half horizon, M=2..16)" % (what, intg), payload, feats)
+                    if msg2:
+                        self.slice_ok[name] = False
+                        self.violation(msg + " ; confirmed: " + msg2, dict(payload, errors=errs, errors_half_horizon=e2), feats)
+                        return
+
+    def dc_flow(self, desc, x0, p, t0, T, M, degree, scheme):
+        """state at t0+T and integral implied by DirectCollocation: solve the (square) collocation system"""
+        import numpy as np
+        rockit = B.import_rockit()
+        d = copy.deepcopy(desc)
+        d['t0'] = ('num', Fr(t0))
+        d['T'] = ('num', Fr(T))
+        b = B.build(d, transcribe=False)
+        with B.quiet():
+            o = b.ocp
+            for s, v in zip(b.states, x0):
+                o.subject_to(o.at_t0(s) == v)
+            o.set_value(b.params[''][0], p)
+            o.method(rockit.DirectCollocation(N=1, M=M, degree=degree, scheme=scheme))
+            o.solver('ipopt', {'ipopt.print_level': 0, 'print_time': False, 'ipopt.tol': 1e-13, 'ipopt.sb': 'yes', 'ipopt.max_iter': 200})
+            for s, v in zip(b.states, x0):
+                o.set_initial(s, v)
+            try:
+                sol = o.solve()
+            except Exception:
+                sol = o.non_converged_solution
+            xf = np.array([np.array(sol.sample(s, grid='control')[1]).flatten()[-1] for s in b.states])
+            qf = float(sol.value(o.objective))
+        return xf, qf
+
+    def collocation_slice(self):
+        import numpy as np
+        name = "collocation-order"
+        n = 4 if self.tier == 'quick' else 36
+        for it in range(n):
+            degree = [1, 2, 2, 3][it % 4]
+            scheme = ['radau', 'legendre'][(it // 2) % 2] if self.tier != 'quick' else ['radau', 'legendre', 'legendre', 'radau'][it % 4]
+            order = 2 * degree - 1 if scheme == 'radau' else 2 * degree
+            desc = gen_smooth_ode(self.rng, nx=self.rng.choice([1, 2]), control=False, dae=(it % 3 == 2))
+            x0, u, p, t0, T = self.point(desc)
+            T = T * (2.0 if order >= 5 else 1.0)
+            xr, qr = reference_flow(desc, x0, 0.0, p, t0, T)
+            ex, eq = [], []
+            for M in (1, 2, 4, 8):
+                xf, qf = self.dc_flow(desc, x0, p, t0, T, M, degree, scheme)
+                ex.append(float(np.max(np.abs(xf - xr))))
+                eq.append(abs(qf - qr))
+            self.evaluations += 1
+            self.signatures.add("dc-%d-%s-%d" % (degree, scheme, it))
+            self.count("collocation:%s-%d" % (scheme, degree))
+            payload = {"desc": desc, "x0": x0, "p": p, "t0": t0, "T": T, "degree": degree, "scheme": scheme}
+            for errs, what in ((ex, "state transition"), (eq, "ocp.integral")):
+                feats = {"kind": "order", "scheme": "%s-%d" % (scheme, degree), "quantity": what}
+                msg = self.order_verdict(errs, order, "%s under DirectCollocation(degree=%d, scheme='%s')" % (what, degree, scheme), payload, feats, floor=1e-10)
+                if msg:
+                    # high-order schemes reach the asymptotic regime late: confirm on a four times finer sequence before reporting
+                    e2 = []
+                    for M in (4, 8, 16, 32):
+                        xf, qf = self.dc_flow(desc, x0, p, t0, T, M, degree, scheme)
+                        e2.append(float(np.max(np.abs(xf - xr))) if what == "state transition" else abs(qf - qr))
+                    msg2 = self.order_verdict(e2, order, "%s under DirectCollocation(degree=%d, scheme='%s'), M=4..32" % (what, degree, scheme), payload, feats, floor=1e-10)
+                    if msg2:
+                        self.slice_ok[name] = False
+                        self.violation(msg + " ; confirmed: " + msg2, dict(payload, errors=errs, errors_finer=e2), feats)
+                        return
+
+    def builtin_slice(self):
+        import numpy as np
+        rockit = B.import_rockit()
+        name = "builtin-integrators"
+        n = 4 if self.tier == 'quick' else 30
+        for it in range(n):
+            intg = ['cvodes', 'collocation', 'idas', 'cvodes'][it % 4]
+            dae = intg == 'idas'
+            desc = gen_smooth_ode(self.rng, dae=dae)
+            x0, u, p, t0, T = self.point(desc)
+            xr, qr = reference_flow(desc, x0, u, p, t0, T)
+            b = B.build(copy.deepcopy(desc), transcribe=False)
+            opts = {'abstol': 1e-10, 'reltol': 1e-10} if intg in ('cvodes', 'idas') else {'number_of_finite_elements': 20, 'interpolation_order': 4}
+            try:
+                with B.quiet():
+                    b.ocp.method(rockit.MultipleShooting(N=1, M=self.rng.choice([1, 2]), intg=intg, intg_options=opts))
+                    F = b.ocp.discrete_system()
+                    out = F(x0, [u], T, t0, [p], [0.0] * sum(desc['algs']))
+            except Exception as ex:
+                self.slice_ok[name] = False
+                self.violation("intg='%s' raised: %s: %s" % (intg, type(ex).__name__, str(ex)[:300].replace("\n", " ")), {"desc": desc},
+                               {"kind": "exception", "intg": intg})
+                return
+            xf = np.array(out[0]).flatten()
+            err = float(np.max(np.abs(xf - xr)))
+            self.evaluations += 1
+            self.signatures.add("builtin-%s-%d" % (intg, it))
+            self.count("builtin:%s" % intg)
+            if err > 1e-6 * max(1.0, float(np.max(np.abs(xr)))):
+                self.slice_ok[name] = False
+                self.violation("intg='%s' (tolerance 1e-10): state at t0+T differs from the exact flow of the declared model by %.3e (t0=%s, explicit time "
+                               "dependence)" % (intg, err, t0), {"desc": desc, "x0": x0, "u": u, "p": p, "t0": t0, "T": T, "impl": xf.tolist(), "reference": xr.tolist()},
+                               {"kind": "tolerance", "intg": intg})
+                return
+
+    def simulator_slice(self):
+        import numpy as np
+        rockit = B.import_rockit()
+        name = "sys_simulator"
+        n = 3 if self.tier == 'quick' else 25
+        for it in range(n):
+            desc = gen_smooth_ode(self.rng)
+            x0, u, p, t0, T = self.point(desc)
+            xr, qr = reference_flow(desc, x0, u, p, t0, T)
+            b = B.build(copy.deepcopy(desc), transcribe=False)
+            with B.quiet():
+                b.ocp.method(rockit.MultipleShooting(N=1, M=16, intg='rk'))
+                F = b.ocp.discrete_system()
+                xd = np.array(F(x0, [u], T, t0, [p], [])[0]).flatten()
+                sim = b.ocp.sys_simulator(intg='cvodes', intg_options={'abstol': 1e-11, 'reltol': 1e-11})
+                xs = np.array(sim(x0, [u], [p], t0, T, [])[0]).flatten()
+            self.evaluations += 1
+            self.count("simulator-runs")
+            self.signatures.add("sim-%d" % it)
+            scale = max(1.0, float(np.max(np.abs(xr))))
+            if float(np.max(np.abs(xs - xr))) > 1e-6 * scale:
+                self.slice_ok[name] = False
+                self.violation("ocp.sys_simulator() does not follow the declared model: differs from the exact flow by %.3e" % float(np.max(np.abs(xs - xr))),
+                               {"desc": desc, "x0": x0, "u": u, "p": p, "t0": t0, "T": T}, {"kind": "simulator"})
+                return
+            if float(np.max(np.abs(xs - xd))) > 1e-4 * scale:
+                self.slice_ok[name] = False
+                self.violation("ocp.sys_simulator() and ocp.discrete_system() (rk, M=16) describe different flows: %.3e apart" % float(np.max(np.abs(xs - xd))),
+                               {"desc": desc, "x0": x0, "u": u, "p": p, "t0": t0, "T": T}, {"kind": "simulator"})
+                return
